@@ -58,6 +58,13 @@ class C12(Prop):
     partial = {}
 
     def cases(self, rng, tier, budget):
+        # every kind of case in every chunk the pipeline consumes (it stops early after 50 disagreements):
+        # generate all, then interleave deterministically
+        out = list(self._cases(rng, tier, budget))
+        rng.shuffle(out)
+        return out
+
+    def _cases(self, rng, tier, budget):
         f_rpms.reset_budget()
         kinds = ["rpms", "modules", "extra_files"]
         n_tree = max(30, budget // 8)
@@ -119,16 +126,18 @@ class C12(Prop):
             return checklib.guarded(pm.extra_files._relative_to, a["path"], a["root"])
         if case["op"] == "dump_for_tree":
             obj = f_extra.new()
-            for op in a["ops"]:
+            accepted = []
+            for i, op in enumerate(a["ops"]):
                 try:
                     f_extra.add(obj, op)
+                    accepted.append(i)
                 except (ValueError, TypeError):
                     pass
             stored = copy.deepcopy(obj.extra_files)
             try:
-                return {"ok": f_extra.dump_for_tree(obj, a["variant"], a["arch"], a["basepath"]), "stored": mc.enc(stored)}
+                return {"ok": f_extra.dump_for_tree(obj, a["variant"], a["arch"], a["basepath"]), "stored": mc.enc(stored), "accepted": accepted}
             except Exception as e:  # noqa
-                return {"err": type(e).__name__, "stored": mc.enc(stored)}
+                return {"err": type(e).__name__, "stored": mc.enc(stored), "accepted": accepted}
         raise ValueError(case["op"])
 
     # ---- model side
@@ -155,7 +164,7 @@ class C12(Prop):
 
     def compare(self, case, real_out, model_out):
         if case["op"] == "dump_for_tree":
-            real_out = dict((k, v) for k, v in real_out.items() if k != "stored")
+            real_out = dict((k, v) for k, v in real_out.items() if k not in ("stored", "accepted"))
         if json.dumps(real_out, sort_keys=True) != json.dumps(model_out, sort_keys=True):
             if case["op"] in ("trace", "trace_init"):
                 for i, (r, m) in enumerate(zip(real_out["steps"], model_out["steps"])):
@@ -191,8 +200,9 @@ class C12(Prop):
                 return {"kind": "relative", "observed": real_out, "required": {"ok": want}}
             return None
         if case["op"] == "dump_for_tree":
-            stored = real_out.get("stored", {})
-            items = stored.get(a["variant"], {}).get(a["arch"]) if isinstance(stored, dict) else None
+            # the records the CALLS put under this variant/arch (not what the object happens to hold)
+            mine = [a["ops"][i] for i in real_out.get("accepted", []) if a["ops"][i]["variant"] == a["variant"] and a["ops"][i]["arch"] == a["arch"]]
+            items = [{"file": op["path"], "size": op["size"], "checksums": op["checksums"]} for op in mine] if mine else None
             if items is None:
                 if real_out.get("err") != "KeyError":
                     return {"kind": "tree-missing", "observed": real_out.get("err", "ok"), "required": "KeyError for an unknown variant/arch"}
